@@ -77,6 +77,10 @@ def extract():
     # passes none) and the static pre-check ReceivingMessage.validate
     init_ast = py2ir.wrap(tr.function("__init__", ["self", "header", "payload"], owner=protocol.ReceivingMessage, lenient=True))
     validate_ast = py2ir.wrap(tr.function("validate", ["data"], owner=protocol.ReceivingMessage))
+    # ... and the sender: SendingMessage.__init__ (the branch for memoryview annotation values is left opaque: the model's
+    # annotation values are bytes objects)
+    send_init_ast = py2ir.wrap(tr.function("__init__", ["self", "msgtype", "flags", "seq", "serializer_id", "payload", "annotations"],
+                                           owner=protocol.SendingMessage, lenient=True))
     return f"""-- GENERATED by harness/props/c06.py from Pyro5/protocol.py — do not edit
 import PyroModel.PyIR
 namespace Pyro.Gen.C06
@@ -92,6 +96,10 @@ open Pyro.PyIR in
 /-- `ReceivingMessage.validate(data)` as it is written now -/
 def validateSrc : Pyro.PyIR.Stmt :=
   {validate_ast}
+open Pyro.PyIR in
+/-- `SendingMessage.__init__(self, msgtype, flags, seq, serializer_id, payload, annotations)` as it is written now -/
+def sendInitSrc : Pyro.PyIR.Stmt :=
+  {send_init_ast}
 def headerFormat : String := {json.dumps(protocol._header_format)}
 def headerSize : Nat := {protocol._header_size}
 def protocolVersion : Nat := {protocol.PROTOCOL_VERSION}
